@@ -207,6 +207,12 @@ fn run_case_on<G: RandomAccessGraph + Sync>(vg: &G, n: usize, kind: Kind, gran: 
                 if !spec.roots.is_empty() {
                     let _r: ControlFlow<(), ()> = visit.visit(spec.roots.clone(), |_e| Continue(()));
                 }
+                // an enumeration abandoned half way (iterator dropped with a non-empty queue)
+                // must not influence the next one: BfsOrder::new resets the visitor
+                if spec.roots.len() % 2 == 1 && n >= 2 {
+                    let mut it0 = (&mut visit).into_iter();
+                    for _ in 0..(n + 1) / 2 { if it0.next().is_none() { break; } }
+                }
                 let mut items = Vec::new();
                 let mut lenok = true;
                 let mut it = (&mut visit).into_iter();
@@ -236,6 +242,12 @@ fn run_case_on<G: RandomAccessGraph + Sync>(vg: &G, n: usize, kind: Kind, gran: 
             let mut visit = breadth_first::Seq::new(vg);
             let mut logs = Vec::new();
             for spec in visits {
+                // same for the enumeration from roots
+                if spec.roots.len() % 2 == 0 && n >= 2 {
+                    if let Ok(mut it0) = visit.iter_from_roots(spec.roots.clone()) {
+                        for _ in 0..(n + 1) / 2 { if it0.next().is_none() { break; } }
+                    }
+                }
                 let mut items = Vec::new();
                 match visit.iter_from_roots(spec.roots.clone()) {
                     Err(_) => items.push("ERR".to_string()),
